@@ -110,7 +110,7 @@ prop(
     rule="evaluations = Liquidate calls (limit 0, any caller) issued when the monitor observed ALL antecedents: recomputed liquidation ratio < maintenance, vAMM open and registered, whole (and partial) closing trade quotable with a non-zero half-penalty, "
          "spot strictly inside the per-block band, liquidation fee ratio != 0, insurance fund >= 2*(notional+margin+close quote). Such a call failing is a violation; any uncertain antecedent skips the step. "
          "distinct = (oracle kind, deciding ratio, ratio class negative/below-fee/above-fee, partial setting, vault smaller than remaining margin, paused, direction).",
-    essential=["antecedents-met"],
+    essential=["antecedents-met", "antecedents-met-while-paused:full-path", "antecedents-met-while-paused:partial-path"],
     text="Unbounded 'can always be liquidated' is restated as immediate progress on every observed under-margined state; held on what was observed, with listed known findings.",
     note="liveness is out of reach for runtime monitoring; the oracle price used is the harness's own last submission",
 )
